@@ -111,6 +111,11 @@ def rf24Call (d : Rf24) (w : World) : List String → Option (String × Rf24 × 
   | ["send", buf, noack, retry, only] => do
     let (m, b) ← parseBuf buf; let na ← pBool noack; let fr ← parseInt retry; let so ← pBool only
     some (runD d w (send b m na fr so) fun (r, c) => s!"{sSendRes r} buf={hex c}")
+  | "sendl" :: noack :: retry :: only :: bufs => do
+    let na ← pBool noack; let fr ← parseInt retry; let so ← pBool only
+    let bs ← bufs.mapM parseBuf
+    some (runD d w (sendList bs na fr so) fun rs =>
+      "[" ++ ",".intercalate (rs.map fun (r, _) => sSendRes r) ++ "] buf=" ++ ",".intercalate (rs.map fun (_, c) => hex c))
   | ["write", buf, noack, wonly] => do
     let (m, b) ← parseBuf buf; let na ← pBool noack; let wo ← pBool wonly
     some (runD d w (write b m na wo) fun (r, c) => s!"{sBool r} buf={hex c}")
